@@ -338,6 +338,39 @@ mod tests {
         );
     }
 
+    /// Another task can run between a mutex release and whatever the releasing task does next
+    /// (shuttle's own yield at an unlock comes before the release, so without the shim's extra
+    /// scheduling point this interleaving does not exist).
+    #[test]
+    fn another_task_can_run_right_after_a_release() {
+        use std::sync::atomic::AtomicBool;
+        let hits = Arc::new(AtomicUsize::new(0));
+        let hits2 = Arc::clone(&hits);
+        with_ctx(
+            move || {
+                let m = Arc::new(Mutex::new(()));
+                let flag = Arc::new(AtomicBool::new(false));
+                let (m2, flag2) = (Arc::clone(&m), Arc::clone(&flag));
+                let h = shuttle::thread::spawn(move || {
+                    let g = m2.lock();
+                    flag2.store(true, Ordering::SeqCst);
+                    drop(g);
+                });
+                let g = m.lock();
+                let held_first = !flag.load(Ordering::SeqCst);
+                drop(g);
+                // no synchronisation operation between the release and this load
+                let seen_after_release = flag.load(Ordering::SeqCst);
+                if held_first && seen_after_release {
+                    hits2.fetch_add(1, Ordering::SeqCst);
+                }
+                h.join().unwrap();
+            },
+            2000,
+        );
+        assert!(hits.load(Ordering::SeqCst) > 0, "no execution ran the other task between the release and the next instruction");
+    }
+
     #[test]
     fn unlocked_fair_really_unlocks_and_relocks() {
         with_ctx(
